@@ -115,6 +115,28 @@ func scenarioReval(c *vrun.Ctx) {
 		}
 	}
 	vtime.Local = nil
+	// histories that start from a stored entry that has just gone stale (the prefix "G0 X" is fixed):
+	// what happens after a first revalidation needs two more events than the depth bound allows from
+	// the empty state
+	for _, scheme := range []string{"etag", "lm", "both", "etag-304-weakens"} {
+		for hi := 0; hi < n3; hi++ {
+			caseNo++
+			if !c.Mine(caseNo) {
+				continue
+			}
+			hist := []string{"G0", "X", "", "", ""}
+			x := hi
+			for i := 4; i >= 2; i-- {
+				hist[i] = revalAlphabet[x%n]
+				x /= n
+			}
+			if hist[4][0] != 'G' {
+				continue
+			}
+			c.Case()
+			runRevalCase(c, env, scheme, hist, defaultAge)
+		}
+	}
 	c.Res.Bounds["depth"] = p.Depth
 	c.Res.Bounds["alphabet"] = revalAlphabet
 	c.Res.Bounds["validator_schemes"] = revalSchemes
